@@ -50,7 +50,7 @@ let show (own, seen) = Printf.sprintf "%d:%d" own seen
 let base_page_layer : (int, (BinNums.coq_N * BinNums.coq_N), CbCache.coq_PR) layer =
   { l_priv = 1;
     l_hook = (fun h -> match h with
-                       | HGetPage -> Some (fun _ (a_as, a) -> ReadCache.synth_get_page a_as a)
+                       | HGetPage -> Some (fun _ (a_as, a) -> CbCache.cb_page_source a_as a)
                        | _ -> None) }
 let def_layer : (int, (BinNums.coq_N * BinNums.coq_N), CbCache.coq_PR) layer =
   { l_priv = 0; l_hook = (fun _ -> Some (fun _ _ -> None)) }
@@ -79,6 +79,20 @@ let show_rres = function
 
 let count p l = Stdlib.List.length (Stdlib.List.filter p l)
 
+(* "Y <as>:<addr>": what the page source answers (region start, size, first 8 bytes) — compared with
+   the driver's own page source before the histories are run *)
+let probe_case (line : string) : string =
+  match words line with
+  | [_; x] -> (match split_on ':' x with
+      | [a_as; a] ->
+          (match CbCache.cb_page_source (n_of_hex a_as) (n_of_hex a) with
+           | None -> "none"
+           | Some ((b, sz), d) ->
+               Printf.sprintf "%s:%s:%s" (hex_of_n b) (hex_of_n sz)
+                 (le_value (Stdlib.List.filteri (fun i _ -> i < 8) d)))
+      | _ -> failwith "bad Y")
+  | _ -> failwith "bad Y"
+
 let cache_case (line : string) : string =
   let ops = parse_hops line in
   let st0 = { CbCache.h_stack = [base_page_layer; def_layer]; CbCache.h_cache = ReadCache.init_cache } in
@@ -101,7 +115,7 @@ let cachespec_case (line : string) : string =
       if Stdlib.List.length ans <> nr + 4 then "malformed answer" else
       let rec go rs al = match rs, al with
         | (s, a, n) :: rs', x :: al' ->
-            let want = show_rres (ReadCache.direct ReadCache.synth_get_page s a n) in
+            let want = show_rres (ReadCache.direct CbCache.cb_page_source s a n) in
             if x = want then go rs' al'
             else Printf.sprintf "read of %s:%s returns %s, the page source holds %s (bytes of a page that was already given back?)"
                    (hex_of_n s) (hex_of_n a) x want
@@ -121,6 +135,7 @@ let cachespec_case (line : string) : string =
 let run_case (line : string) : string =
   if line <> "" && (line.[0] = 'K' || line.[0] = 'L') then "same" else
   if line <> "" && line.[0] = 'C' then cache_case line else
+  if line <> "" && line.[0] = 'Y' then probe_case line else
   if line = "SITES" then
     String.concat " " (Stdlib.List.map (fun (h, sa) ->
       (match h with HGetPage -> "get_page" | HReadCaps -> "read_caps" | HRegValue -> "reg_value"
@@ -135,7 +150,7 @@ let run_case (line : string) : string =
 
 (* what the specification demands for every I op of the line *)
 let spec_case (line : string) : string =
-  if line <> "" && (line.[0] = 'K' || line.[0] = 'L' || line.[0] = 'S' || line.[0] = 'C') then "same" else
+  if line <> "" && (line.[0] = 'K' || line.[0] = 'L' || line.[0] = 'S' || line.[0] = 'C' || line.[0] = 'Y') then "same" else
   run_ops line (fun stack h ->
     match CbSpec.invoke_spec stack h () with
     | Some r -> show r
